@@ -24,7 +24,7 @@ def run(ctx):
     iter_invs = ("NoDupKeys", "QStruct", "IterNoBackwards", "IterOnlyPresent", "IterSeekLands", "IterComplete")
     mcs = [("MC_SLI_1m.cfg", slc.cfg_text(["p1"], [1, 2], 3, 3, 1, invs=iter_invs, iters=["it1"]))]
     if T:
-        mcs += [("MC_SLI_2m.cfg", slc.cfg_text(["p1", "p2"], [1, 2], 2, 2, 1, invs=iter_invs, iters=["it1"])),
+        mcs += [("MC_SLI_2m.cfg", slc.cfg_text(["p1", "p2"], [1, 2], 1, 2, 1, invs=iter_invs, iters=["it1"])),   # 2 mutators x 1 call: 304 k states (2 calls each: > 146 M, not finished in 40 min)
                 ("MC_SLI_3k.cfg", slc.cfg_text(["p1"], [1, 2, 3], 3, 3, 1, invs=iter_invs, iters=["it1"]))]
     for name, text in mcs:
         r = slc.mc(ctx, name, text, timeout=2400)
